@@ -85,6 +85,84 @@ def sigExpect (args : List String) : String :=
     | _, _ => "bad-op"
   | _ => "bad-op"
 
+/-- `bls.verify <sk> <H> <cand>`: the verdict the specification prescribes for `Verify` under the public key
+    `sk • g2` (sk = 0: identity key) of the candidate string: true iff it is the one string `encode(sk • H)` -/
+def blsVerify (args : List String) : String :=
+  match args with
+  | [k, h, cand] => match parseNat? k, parseBytes? h, parseBytes? cand with
+    | some k, some h, some cand => match readE1 h with
+      | .ok H =>
+        if cand.length ≠ 48 then "false"
+        else if k % r = 0 then "false"
+        else if cand == signPoint (k % r) H then "true" else "false"
+      | .error _ => "err"
+    | _, _, _ => "bad-op"
+  | _ => "bad-op"
+
+def parseNats? (l : List String) : Option (List Nat) := l.mapM parseNat?
+
+/-- `agg.sk <k>*`: encoding of the aggregated private key -/
+def aggSk (args : List String) : String :=
+  match parseNats? args with
+  | some ks => if ks.isEmpty then "err EmptyList" else okHex (writeFr (ks.foldl (· + ·) 0 % r))
+  | none => "bad-op"
+
+/-- `agg.pk <k>*`: the aggregate of the public keys of the scalars, i.e. `(Σ k) • g2` -/
+def aggPk (args : List String) : String :=
+  match parseNats? args with
+  | some ks => if ks.isEmpty then "err EmptyList" else okHex (writeE2 (publicKeyOf (ks.foldl (· + ·) 0 % r)))
+  | none => "bad-op"
+
+/-- `agg.sig <b>*`: AggregateBLSSignatures -/
+def aggSig (args : List String) : String :=
+  match args.mapM parseBytes? with
+  | some bs =>
+    if bs.isEmpty then "err EmptyList" else
+    match bs.mapM (fun b => match readE1 b with | .ok P => some P | .error _ => none) with
+    | some ps => okHex (writeE1 (Curve.sum E1 ps))
+    | none => "err InvalidSignature"
+  | none => "bad-op"
+
+/-- `bls.many <cand> (<sk> <H>)*`: VerifyBLSSignatureManyMessages under keys `sk_i • g2`:
+    true iff no key is the identity and `cand = encode(Σ sk_i • H_i)` -/
+def blsMany (args : List String) : String :=
+  match args with
+  | cand :: rest =>
+    let rec pairs : List String → Option (List (Nat × P1))
+      | [] => some []
+      | k :: h :: t => do
+        let k ← parseNat? k
+        let h ← parseBytes? h
+        let H ← (match readE1 h with | .ok H => some H | .error _ => none)
+        let r' ← pairs t
+        pure ((k % r, H) :: r')
+      | _ => none
+    match parseBytes? cand, pairs rest with
+    | some cand, some ps =>
+      if cand.length ≠ 48 then "false"
+      else if ps.isEmpty then "err EmptyList"
+      else if ps.any (fun kh => kh.1 = 0) then "false"
+      else if cand == writeE1 (Curve.sum E1 (ps.map fun kh => Curve.mul E1 kh.1 kh.2)) then "true" else "false"
+    | _, _ => "bad-op"
+  | _ => "bad-op"
+
+/-- `spock <sk1> <p1> <sk2> <p2>`: SPOCKVerify under keys `sk_i • g2`: both proofs canonical encodings of G1
+    elements, neither key the identity, `e(p1, pk2) = e(p2, pk1)` i.e. `sk2 • P1 = sk1 • P2` -/
+def spock (args : List String) : String :=
+  match args with
+  | [k1, p1, k2, p2] =>
+    match parseNat? k1, parseBytes? p1, parseNat? k2, parseBytes? p2 with
+    | some k1, some p1, some k2, some p2 =>
+      if p1.length ≠ 48 ∨ p2.length ≠ 48 then "false"
+      else if k1 % r = 0 ∨ k2 % r = 0 then "false"
+      else match readE1 p1, readE1 p2 with
+        | .ok P1, .ok P2 =>
+          if !(inG1 P1) || !(inG1 P2) then "false"
+          else if Curve.mul E1 (k2 % r) P1 == Curve.mul E1 (k1 % r) P2 then "true" else "false"
+        | _, _ => "false"
+    | _, _, _, _ => "bad-op"
+  | _ => "bad-op"
+
 /-- x-coordinates 1,2,3,… that give a point of E1; the i-th one, multiplied by `r`, is a point of
     order dividing the cofactor (outside G1 unless it is the identity) -/
 def e1PointFromX (fuel : Nat) (x : Nat) : Option P1 :=
